@@ -701,9 +701,11 @@ def oa2r(o, a=None):
     """
     o = base.getvector(o, 3, out='array')
     a = base.getvector(a, 3, out='array')
+    a = base.unitvec(a)
     n = np.cross(o, a)
-    o = np.cross(a, n)
-    R = np.stack((base.unitvec(n), base.unitvec(o), base.unitvec(a)), axis=1)
+    o = base.unitvec(np.cross(a, n))
+    n = np.cross(o, a)  # unit and orthogonal to o and a by construction
+    R = np.stack((n, o, a), axis=1)
     return R
 
 
